@@ -125,7 +125,7 @@ func c09Case(c *rep.Ctx, r c09Replay) {
 		}
 		want += model.RenderRoot(rt, model.DefaultFmt) + fmt.Sprintf("\n%d directories, %d files\n", md, mf)
 	}
-	if out != want {
+	if model.NormSummary(out) != model.NormSummary(want) {
 		c.Violation("C09|wrong-report|"+r.Route, fmt.Sprintf("%s:\n got %q\nwant %q", desc, out, want), size, r)
 	}
 }
